@@ -259,6 +259,10 @@ def run(ch: Checker) -> None:
     from .common import shared_mutable
     memo = [(c, shared_mutable(prog, sf, c)) for c in walk_no_nested(sf.node) if isinstance(c, ast.Call)]
     memo = [(c, why) for c, why in memo if why]
+    from .common import _memo_decorator
+    own_memo = _memo_decorator(getattr(sf, 'orig_node', sf.node))
+    if own_memo:
+        memo.append((sf.node, 'its own previous answers: serve_static_file is itself memoised by @%s' % own_memo))
     ch.check(not memo, 'C13.7', sf, 'file read per response', 'nothing serve_static_file calls is memoised',
              'serve_static_file takes a value from %s: what is sent is what the file contained when it was first read (under a key that does not change when the file is rewritten within the '
              'same second, or with its timestamp preserved), not what the file contains now' % (memo[0][1] if memo else ''), line=memo[0][0].lineno if memo else None)
